@@ -21,6 +21,7 @@ type c18Combo struct {
 	SVar int // stdin: 0 = a pipe, 1 = redirected from a regular file
 	EVar int // key pair in the environment: see c18EnvVars
 	DVar int // values of the two date switches when both are given: see c18DateVars
+	FVar int // file arguments: 0 = one, 1 = two different files, 2 = the same file twice
 }
 
 // c18DateVars: values the two date switches can carry.  Only the first pair is what the documentation describes (epoch
@@ -108,6 +109,11 @@ func c18Rule(k c18Combo) (string, string) {
 	case atlasMode && k.Y:
 		return "open", "atlas-with-encrypt"
 	}
+	if k.F && k.FVar != 0 {
+		// several file arguments next to nothing else: the statement speaks of "file" as one source and does not say
+		// whether a list of files is one well-defined job; next to stdin / Atlas the rules above have already rejected it
+		return "open", "several-file-arguments"
+	}
 	return "must-accept", "well-defined-job"
 }
 
@@ -130,7 +136,10 @@ func c18Run(c *Ctx) {
 			continue
 		}
 		k0 := c18FromMask(mask)
-		nS, nE, nD := 1, 1, 1
+		nS, nE, nD, nF := 1, 1, 1, 1
+		if k0.F {
+			nF = 3
+		}
 		if k0.S {
 			nS = 2
 		}
@@ -140,9 +149,15 @@ func c18Run(c *Ctx) {
 		if k0.A && k0.B && k0.P && k0.C {
 			nD = len(c18DateVars) // date values matter where the dates are used: complete Atlas jobs
 		}
-		for variant := 0; variant < nS*nE*nD; variant++ {
+		// the ways of being present are varied one dimension group at a time: stdin x environment x dates as a product with
+		// one file argument, and the file-argument variants with the plain forms of the others
+		for variant := 0; variant < nS*nE*nD+(nF-1); variant++ {
 			k := k0
-			k.SVar, k.EVar, k.DVar = variant%nS, variant/nS%nE, variant/(nS*nE)
+			if variant < nS*nE*nD {
+				k.SVar, k.EVar, k.DVar = variant%nS, variant/nS%nE, variant/(nS*nE)
+			} else {
+				k.FVar = variant - nS*nE*nD + 1
+			}
 			class, rule := c18Rule(k)
 			for pre := 0; pre < 2; pre++ {
 				if pre == 1 && !k.O {
@@ -151,6 +166,7 @@ func c18Run(c *Ctx) {
 				sand := freshDir(base, "sand")
 				os.Mkdir(filepath.Join(sand, "tmp"), 0o755)
 				os.WriteFile(filepath.Join(sand, "in.log"), []byte(logLine+"\n"), 0o644)
+				os.WriteFile(filepath.Join(sand, "in2.log"), []byte(logLine+"\n"), 0o644)
 				if pre == 1 {
 					os.WriteFile(filepath.Join(sand, "out.log"), []byte(c18Sentinel), 0o644)
 					os.WriteFile(filepath.Join(sand, "out.log.0"), []byte(c18Sentinel), 0o644)
@@ -159,6 +175,12 @@ func c18Run(c *Ctx) {
 				args := []string{"redact"}
 				if k.F {
 					args = append(args, "in.log")
+					switch k.FVar {
+					case 1:
+						args = append(args, "in2.log")
+					case 2:
+						args = append(args, "in.log")
+					}
 				}
 				if k.O {
 					args = append(args, "--outputFile", "out.log")
@@ -230,7 +252,7 @@ func c18Run(c *Ctx) {
 				diff := snapshotDiff(before, after)
 				rejected := r.Exit != 0 || r.Signal != ""
 				desc := fmt.Sprintf("switches [%s]%s: rule %s (%s)", k, map[int]string{0: "", 1: ", output file pre-existing"}[pre], rule, class)
-				rp := map[string]any{"kind": "argv", "mask": mask, "pre_existing_output": pre == 1, "args": args, "env_keys": k.E, "env_variant": c18EnvVars[k.EVar].name, "stdin_piped": k.S, "stdin_regular_file": k.SVar == 1, "rule": rule, "class": class}
+				rp := map[string]any{"kind": "argv", "mask": mask, "pre_existing_output": pre == 1, "args": args, "env_keys": k.E, "env_variant": c18EnvVars[k.EVar].name, "stdin_piped": k.S, "stdin_regular_file": k.SVar == 1, "file_arguments": map[int]int{0: 1, 1: 2, 2: 2}[k.FVar], "rule": rule, "class": class}
 				viol := func(sym, what string) {
 					c.Outcome("model-mismatch")
 					c.Violate(class+":"+rule+":"+sym, fmt.Sprintf("%s: %s; exit %d, stderr %q, requests %d, sandbox changes %v", desc, what, r.Exit, trunc(string(r.Stderr), 160), nreq, diff), int64(popcount(mask)*2+pre), rp, nil)
@@ -325,8 +347,8 @@ func c18Post(c *Ctx, m *Part) {
 func init() {
 	register(&PropDef{
 		ID: "C18", Level: "model_checking",
-		Rule:        "all 8192 presence/absence combinations (64 512 runs with the variants) of {file argument, piped stdin, --outputFile, --encrypt, --redactFieldsRegexp, --redactFieldNames, --atlasProjectId, --atlasClusterName, --atlasPublicKey, --atlasPrivateKey, --atlasLogStartDate, --atlasLogEndDate, key pair in the environment}, crossed with the WAYS two of them can be present (stdin: a pipe or a redirected regular file; environment: both variables set, only one of them set, one or both set to the empty string - a half of the pair counts only when its value is non-empty), each with and (when -o is given) without a pre-existing output file holding sentinel bytes, run through the real main() with cobra/pflag wiring (harness binary in child-cli mode: only http.DefaultTransport is replaced by a scripted, well-behaved Atlas endpoint that logs requests) in a fresh sandbox (own cwd, HOME, TMPDIR); reference model = rule table of DESIGN.md C18 (must-reject / open / must-accept); must-reject => non-zero exit, non-empty stderr, sandbox snapshot (path, type, mode, size, SHA-256) unchanged, empty request log; must-accept => exit 0 and redacted output present; a rejection of an open combination must be side-effect free as well. states = combinations, transitions = runs, every one compared with the model",
-		Assumptions: []string{"combinations the statement does not decide (Atlas key / date flags next to a real input; Atlas mode with --encrypt) are open: either outcome is accepted", "flag VALUES are fixed well-formed ones; only presence is enumerated"},
+		Rule:        "all 8192 presence/absence combinations (about 80 000 runs with the variants) of {file argument (one, two different ones, the same one twice), piped stdin, --outputFile, --encrypt, --redactFieldsRegexp, --redactFieldNames, --atlasProjectId, --atlasClusterName, --atlasPublicKey, --atlasPrivateKey, --atlasLogStartDate, --atlasLogEndDate, key pair in the environment}, crossed with the WAYS two of them can be present (stdin: a pipe or a redirected regular file; environment: both variables set, only one of them set, one or both set to the empty string - a half of the pair counts only when its value is non-empty), each with and (when -o is given) without a pre-existing output file holding sentinel bytes, run through the real main() with cobra/pflag wiring (harness binary in child-cli mode: only http.DefaultTransport is replaced by a scripted, well-behaved Atlas endpoint that logs requests) in a fresh sandbox (own cwd, HOME, TMPDIR); reference model = rule table of DESIGN.md C18 (must-reject / open / must-accept); must-reject => non-zero exit, non-empty stderr, sandbox snapshot (path, type, mode, size, SHA-256) unchanged, empty request log; must-accept => exit 0 and redacted output present; a rejection of an open combination must be side-effect free as well. states = combinations, transitions = runs, every one compared with the model",
+		Assumptions: []string{"combinations the statement does not decide (Atlas key / date flags next to a real input; Atlas mode with --encrypt; several file arguments and nothing else) are open: either outcome is accepted", "flag VALUES are fixed well-formed ones; only presence is enumerated"},
 		Run:         c18Run, Post: c18Post,
 	})
 }
